@@ -5,7 +5,7 @@
 props=$1; shift
 bin=${GODICHECK:-/verif/bin/godicheck}
 run_one() {
-  patch=$1; props=$2; bin=$3
+  patch=$(realpath "$1"); props=$2; bin=$3
   if [ "$props" = auto ]; then
     props=$(head -1 "$patch" | sed -n 's/.*property=\(C[0-9]*\).*/\1/p')
     [ -z "$props" ] && props=$(echo "$patch" | grep -o 'C[0-9][0-9]' | head -1)
